@@ -78,6 +78,10 @@ func (e *Ev) seqArg(v Val, n ast.Node) Term {
 		return x.Seq
 	case VBufPtr:
 		return e.st.env[x.Obj].(VBuf).Seq
+	case VIface:
+		e.fx.useSeq = true
+		e.fx.specUsed["iface_pack"] = true
+		return "(iface_pack " + x.Tag + " " + e.fx.seqOf(x.S) + ")"
 	}
 	e.unsupp(n, "expected a sequence, got %T", v)
 	return ""
